@@ -426,11 +426,13 @@ impl Hist {
             token::fund_ata(&mut h.w.svm, &u, &usdc_mint, 1_000_000_000_000_000);
             h.users.push(u);
             for m in [m0, m1] {
-                // 1 .. 20 000 SOL and 100 .. 2 000 000 USDC
-                let long = rng.range(1, 20_000) * 1_000_000_000;
-                let short = rng.range(100, 2_000_000) * 1_000_000;
+                // Default market caps: 900 SOL / 900 000 USDC pool amount, $750 000 pool value per side.
+                let long = rng.range(1, 250) * 1_000_000_000;
+                let short = rng.range(100, 200_000) * 1_000_000;
                 let d = h.w.create_deposit(u, m, long, short, None, None, &[], &[], 0).unwrap_or_else(|(e, _)| panic!("bootstrap create_deposit: {e:?}"));
-                h.w.execute_deposit(d, true).unwrap_or_else(|(e, _)| panic!("bootstrap execute_deposit: {e:?}"));
+                h.w.svm.keep_logs = true;
+                h.w.execute_deposit(d, true).unwrap_or_else(|(e, meta)| panic!("bootstrap execute_deposit: {e:?} long={long} short={short} logs={:?}", meta.logs));
+                h.w.svm.keep_logs = false;
                 h.w.close_deposit(u, d).unwrap_or_else(|(e, _)| panic!("bootstrap close_deposit: {e:?}"));
             }
             let pu = h.w.prepare_user_ix(u);
@@ -979,9 +981,6 @@ impl Hist {
                 }
                 _ => self.op_calc(rng, m),
             }
-            if m.has_violations() {
-                break;
-            }
         }
     }
 }
@@ -998,8 +997,8 @@ pub fn run(args: &Args) -> Option<i32> {
          successful partial / full unstake checked against the oracle (distinct = hash of (staked amount, value, request, vault balance, min stake value))",
     );
     let n_shards = args.scale(64, 256);
-    let pure_cases = args.scale(12_000, 120_000);
-    let histories = args.scale(4, 30);
+    let pure_cases = args.scale(12_000, 40_000);
+    let histories = args.scale(4, 10);
     let ops = args.scale(90, 140);
     let seed = args.seed;
     vcommon::monitor::run_shards(&mut mon, args.threads, n_shards, |shard, m| {
